@@ -218,15 +218,27 @@ def rule_fw_shape(crate, prop, tier):
     an = crate.an(m)
     fx = crate.fx(m)
     D = "A1.dist.dist"
-    N = None
+    Ns = []
     for ev in an.events:
         if ev["k"] == "call" and ev["key"] and ev["key"].endswith("Order::order"):
-            N = ev["res"]
+            Ns.append(ev["res"])
+    # the matrix's own `order` field equals order(digraph) by construction (FloydWarshall::new) and is never changed
+    if fw_matrix_order_is_digraph_order(crate, S):
+        Ns.append(("mem", "A1.dist.order", ("e",), None))
+
+    def rowmajor(idx, _N=None):
+        from .mem import rowmajor as rm
+        for n_ in Ns:
+            r = rm(idx, n_)
+            if r is not None:
+                return r
+        return None
+    N = Ns[0] if Ns else None
     upd = []
     init_w = []
     diag = []
     for ev in an.events:
-        if ev["k"] != "store" or not ev["region"].startswith(D + "#buf"):
+        if ev["k"] != "store":
             continue
         c, idx = store_elem(ev)
         if region_of_container(c) != D:
@@ -292,6 +304,32 @@ def rule_fw_shape(crate, prop, tier):
     return o.report(floors={"Floyd-Warshall": (o.instances, 1), "relaxation updates": (len(upd), 1)})
 
 
+def fw_matrix_order_is_digraph_order(crate, S):
+    """every FloydWarshall value is built as { dist: DistanceMatrix::new(digraph.order(), ..), digraph }, DistanceMatrix::new
+    stores its first argument in `order`, and neither field chain is written afterwards"""
+    inv = crate.inv
+    DM = "graaf::algo::distance_matrix::DistanceMatrix"
+    sites = inv.real_sites(S)
+    if not sites:
+        return False
+    names = [f["name"] for f in crate.prog.adts[S]["fields"]]
+    for (p, b, i, t) in sites:
+        fields = dict(zip(names, t[3]))
+        dv, gv = fields.get("dist"), fields.get("digraph")
+        if dv is None or gv is None or dv[0] != "call" or crate.prog.key_to_path.get(dv[1]) != ctor_of(crate, DM):
+            return False
+        n = dv[3][0]
+        an = crate.an(p)
+        R = an.region_of_pointer(gv)
+        if not (n[0] == "call" and n[1].endswith("Order::order") and n[3] and n[3][0][0] == "at" and n[3][0][1] == R):
+            return False
+    c = ctor_of(crate, DM)
+    lit, lb = literal_of(crate, crate.an(c), DM)
+    if lit is None or lit.get("order") != ("arg", 1):
+        return False
+    return inv._chain_frozen(((S, "dist"), (DM, "order"))) and crate.prog.frozen.is_frozen(((S, "digraph"),))
+
+
 def _only_continue_exits(an, fx, nev):
     return complete_scan(an, fx, nev)
 
@@ -345,7 +383,28 @@ def rule_layout(crate, prop, tier):
         o.check(lit is not None and lit["order"] == ("arg", 1) and lit["infinity"] == ("arg", 2), "DistanceMatrix::new",
                 "fields", "order / infinity fields are not the arguments")
         wr = [ev for ev in can.events if ev["k"] == "call" and ev["key"] == "core::ptr::write"]
-        o.check(len(wr) >= 1 and all(ev["args"][1] == ("arg", 2) for ev in wr), "DistanceMatrix::new", "fill-infinity",
+        filled = len(wr) >= 1 and all(ev["args"][1] == ("arg", 2) for ev in wr)
+        dv = lit["dist"] if lit else None
+        if not wr and dv is not None:
+            if dv[0] == "call" and dv[1] == "alloc::vec::from_elem" and dv[3][0] == ("arg", 2):
+                filled = True       # vec![infinity; n]
+            src = None
+            if dv[0] == "site" and dv[2] == "core::iter::traits::iterator::Iterator::collect":
+                for ev in can.ev_by_block.get(dv[1], ()):
+                    if ev["k"] == "call" and ev["key"] == dv[2] and ev["args"]:
+                        src = ev["args"][0]
+            elif dv[0] == "call" and dv[1] == "core::iter::traits::iterator::Iterator::collect":
+                src = dv[3][0]
+            if src is not None and src[0] == "call" and src[1] == "core::iter::traits::iterator::Iterator::map" \
+                    and src[3][1][0] == "agg" and src[3][1][1] == "closure":
+                # (0..n).map(|_| infinity).collect(): every cell is the captured `infinity`
+                from .closures import capture_map
+                cl = crate.an(src[3][1][2])
+                cm = capture_map(crate, cl)
+                rets = [ev for ev in cl.events if ev["k"] == "return"]
+                if cm is not None and len(rets) == 1:
+                    filled = any(cv == rets[0]["val"] and pv == ("arg", 2) for pv, cv in cm.valmap)
+        o.check(filled, "DistanceMatrix::new", "fill-infinity",
                 "cells are not filled with the `infinity` argument")
         from .mem import inventory, discharge_site
         sl = [s for s in inventory(can) if s.kind == "call:alloc::vec::Vec::set_len"]
